@@ -63,6 +63,14 @@ def base_corpus():
               # an intermediate placeholder: a master declared under Root/(1-2) and elements below it
               Var('Mid', 0x4446, 'Master', [('id', 'Root'), ('g', 1, 2)]), Var('MidLeaf', 0x4447, 'Utf8', [('id', 'Root'), ('g', 1, 2), ('id', 'Mid')]),
               Var('MidDeep', 0x4448, 'Integer', [('id', 'Root'), ('g', 1, 2), ('id', 'Mid'), ('g', 0, 1)])])
+    # 4: names (and path spellings) that collide when path parts are glued together without a separator:
+    #    Root/Seek/Head/.. vs Root/SeekHead/.. ; RootSeek/.. vs Root/Seek/.. ; placeholders next to names
+    c.append([Var('Root', 0x81, 'Master', []), Var('Seek', 0x4101, 'Master', [('id', 'Root')]), Var('Head', 0x4102, 'Master', [('id', 'Root'), ('id', 'Seek')]),
+              Var('Position', 0x4103, 'UnsignedInt', [('id', 'Root'), ('id', 'Seek'), ('id', 'Head')]),
+              Var('SeekHead', 0x4104, 'Master', [('id', 'Root')]), Var('Entry', 0x4105, 'UnsignedInt', [('id', 'Root'), ('id', 'SeekHead')]),
+              Var('RootSeek', 0x82, 'Master', []), Var('Head2', 0x4106, 'Utf8', [('id', 'RootSeek')]), Var('Tail', 0x4107, 'Binary', [('id', 'Root'), ('id', 'Seek')]),
+              Var('SeekTail', 0x4108, 'Float', [('id', 'Root')]), Var('A', 0x4109, 'Master', [('id', 'Root'), ('g', 1, None)]), Var('B', 0x410A, 'Integer', [('id', 'Root'), ('g', 1, None), ('id', 'A')]),
+              Var('AB', 0x410B, 'Integer', [('id', 'Root'), ('g', 1, None)])])
     return c
 
 
